@@ -16,7 +16,14 @@ operations completed at the cut, or — strictly inside an operation that create
 pattern (0, 0); no unwritten key, no (value, ts) pair that was not written for its key; (2) contains the healthy file's sample.
 Each cut is also compared with the model's columns (file, reader, reopen summary, classification).
 
-All keys are built with mmap_dict.mmap_key so that the collector can parse them.
+Continuation: at every cut a NEW writer also opens a copy of the file and carries on with 1-3 operations over keys shorter
+than, as long as and longer than the history's longest key (read_value of a new key included, which must create it at zero);
+after every operation both readers and read_value must equal the spec run of the continuation started from the prefix state
+the new writer found — so no value appears that neither the dead writer nor the continuation wrote (a writer that leaves the
+value slot of a new entry unwritten shows up here: the slot lands on the orphaned entry of the killed writer).  The same
+continuation runs in the model (`c10 cont`).
+
+All keys of the histories are built with mmap_dict.mmap_key so that the collector can parse them (continuation keys are plain).
 
 Thorough tier: forked writers run a long seeded history and are SIGKILLed at random instants; the same three observations and
 the prefix-state oracle are applied to what they left behind.
@@ -24,7 +31,8 @@ the prefix-state oracle are applied to what they left behind.
 Signatures: C11:zero-length-file (F11, repaired in /repo — an ordinary failure class now: the file exists but has length 0 and the
 readers raise struct.error), C11:cut-unreadable,
 C11:collect-raises, C11:healthy-sample-missing, C11:reopen-raises, C11:reopen-not-a-prefix-state, C11:reopen-write-lost,
-C11:not-a-prefix-state, C11:unwritten-key, C11:unwritten-value, C11:all-zero-file (the sized but still all-zero file must read as
+C11:not-a-prefix-state, C11:unwritten-key, C11:unwritten-value, C11:continuation-raises, C11:continuation-unwritten-value, C11:continuation-unwritten-key, C11:continuation-mismatch,
+C11:all-zero-file (the sized but still all-zero file must read as
 empty and reopen with used = 8), C11:writer-raises (a plain history raised while being recorded).
 """
 import builtins
@@ -279,6 +287,175 @@ def same_summary(model, real):
     return len(a) == 5 and len(b) == 5 and all(x == y or y == '?' for x, y in zip(a, b))
 
 
+# ------------------------------------------------------------------------------------------------- continuation after a cut
+CONT_BITS = ((0x3ff8000000000000, 0x41d9be7a80000001), (0xfff8dead0000beef, 0x0000000000000001),
+             (0x4008000000000000, 0x7ff4000000c0ffee))
+
+
+def continuation_for(ops, k):
+    """1-3 operations a new writer performs after taking the file over at cut k.  Keys: new and shorter than / as long as /
+    longer than the longest key of the history (the in-flight key is one of the history's keys), and that key itself."""
+    hkeys = [kstr(o[1]) for o in ops if o[0] != 'o']
+    longest = max(hkeys, key=lambda x: len(x.encode('utf-8'))) if hkeys else 'k'
+    n = max(len(longest.encode('utf-8')), 1)
+    short, short2, equal, longer = 's', 'sh', '=' * n, 'L' * (n + 24)
+    (v1, t1), (v2, t2), (v3, t3) = CONT_BITS
+    patterns = (
+        [['r', short]],
+        [['w', equal, v1, t1], ['r', short]],
+        [['r', short], ['w', longer, v2, t2], ['r', short2]],
+        [['w', longest, v3, t3], ['r', short], ['o']],
+        [['o'], ['r', short], ['w', short, v1, t1]],
+        [['r', longer], ['r', '']],
+    )
+    return [list(o) for o in patterns[(k + len(ops)) % len(patterns)]]
+
+
+def observe_continuation(md, src, copy, init, cont):
+    """a new writer opens a copy of the cut file and runs `cont`.  Returns ([(read_all_values, file reader, read_value
+    pair | None)] after the constructor and after every completed operation, '!Class' of the raising step | None)"""
+    shutil.copyfile(src, copy)
+    saved = md._INITIAL_MMAP_SIZE
+    md._INITIAL_MMAP_SIZE = init
+    d, out = None, []
+    try:
+        d = md.MmapedDict(copy)
+        out.append((base.read_with(d.read_all_values), base.file_reader(md, copy), None))
+        for op in cont:
+            rv = None
+            if op[0] == 'w':
+                d.write_value(kstr(op[1]), bf(op[2]), bf(op[3]))
+            elif op[0] == 'r':
+                v, t = d.read_value(kstr(op[1]))
+                rv = (fb(v), fb(t))
+            else:
+                d.close()
+                d = None
+                d = md.MmapedDict(copy)
+            out.append((base.read_with(d.read_all_values), base.file_reader(md, copy), rv))
+        return out, None
+    except Exception as e:  # noqa
+        return out, '!' + errname(e)
+    finally:
+        md._INITIAL_MMAP_SIZE = saved
+        if d is not None:
+            try:
+                d.close()
+            except Exception:  # noqa
+                pass
+
+
+def cont_expected(start, cont):
+    """spec run of the continuation from the state the new writer found: [(state string, read_value pair | None)]"""
+    st = list(start)
+    idx = {k: i for i, (k, _, _) in enumerate(st)}
+    out = []
+    for op in cont:
+        rv = None
+        if op[0] != 'o':
+            k = kstr(op[1])
+            if op[0] == 'w':
+                if k in idx:
+                    st[idx[k]] = (k, op[2], op[3])
+                else:
+                    idx[k] = len(st)
+                    st.append((k, op[2], op[3]))
+            else:
+                if k not in idx:
+                    idx[k] = len(st)
+                    st.append((k, 0, 0))
+                rv = (st[idx[k]][1], st[idx[k]][2])
+        out.append((triples_str(st), rv))
+    return out
+
+
+def judge_continuation(judge, ops, head, case, cont, obs, err, start_ok):
+    """oracle for the continuation; `start_ok`: the state the new writer found was admissible (else already reported)"""
+    case = dict(case, cont=cont)
+    chead = head + 'a new writer reopens and continues with [%s]: ' % short_ops(cont)
+    if not obs:
+        return          # the constructor raised: reported as reopen-raises
+    if not start_ok or obs[0][0].startswith('!'):
+        return
+    exp = cont_expected(parse_triples(obs[0][0]), cont)
+    written = {(kstr(o[1]), o[2], o[3]) for o in list(ops) + list(cont) if o[0] == 'w'}
+    keys = {kstr(o[1]) for o in list(ops) + list(cont) if o[0] != 'o'}
+    for i, (want, want_rv) in enumerate(exp):
+        if i + 1 >= len(obs):
+            judge.fail('C11:continuation-raises', chead + 'operation #%d (%s) raised %s' % (i + 1, short_op(cont[i]), (err or '!?')[1:]), case)
+            return
+        h, f, rv = obs[i + 1]
+        bad = None
+        if h != want:
+            bad = ('read_all_values()', h)
+        elif f != want:
+            bad = ('read_all_values_from_file()', f)
+        elif want_rv is not None and rv != want_rv:
+            judge.fail('C11:continuation-unwritten-value' if rv != (0, 0) else 'C11:continuation-mismatch',
+                       chead + 'after operation #%d (%s) read_value returned (0x%016x, 0x%016x), expected (0x%016x, 0x%016x)' % (
+                           (i + 1, short_op(cont[i])) + tuple(rv) + tuple(want_rv)), case)
+            return
+        if bad is not None:
+            sig, detail = 'C11:continuation-mismatch', ''
+            for k, v, t in parse_triples(bad[1]):
+                if k not in keys:
+                    sig, detail = 'C11:continuation-unwritten-key', ': key %s was never written' % base.short_key(k)
+                    break
+                if (v, t) != (0, 0) and (k, v, t) not in written:
+                    sig, detail = ('C11:continuation-unwritten-value',
+                                   ': the pair (0x%016x, 0x%016x) of key %s was written by nobody' % (v, t, base.short_key(k)))
+                    break
+            judge.fail(sig, chead + 'after operation #%d (%s) %s gives %s, expected %s%s' % (
+                i + 1, short_op(cont[i]), bad[0], short_triples(bad[1]), short_triples(want), detail), case)
+            return
+
+
+def cont_line(init, ops, k, cont):
+    return 'c10 cont %d %d %s %d %s' % (init, PAGE, base.enc_ops(ops), k, base.enc_ops(cont))
+
+
+def compare_continuations(ctx, pending):
+    """the same continuations in the model: read_all_values, file reader and read_value result after every step"""
+    if not pending:
+        return
+    replies = base.drv(ctx, [cont_line(init, ops, k, cont) for (_, _, init, ops, k, cont, _, _) in pending])
+    if replies is None:
+        return
+    for (head, case, init, ops, k, cont, obs, err), rep in zip(pending, replies):
+        case = dict(case, cont=cont)
+        chead = head + 'continuation [%s]: ' % short_ops(cont)
+        if not rep.startswith('ok '):
+            ctx.diverge(chead + 'driver: %s' % rep[:200], case)
+            continue
+        steps = rep[3:].split(';')
+        if steps[0].startswith('!'):
+            if steps[0] != '!Timeout' and obs:
+                ctx.diverge(chead + 'model constructor raises %s, implementation opens the file' % steps[0][1:], case)
+            continue
+        for i, st in enumerate(steps):
+            if st.startswith('!'):
+                if st != '!Timeout' and i < len(obs):
+                    ctx.diverge(chead + 'model raises %s at step %d, implementation does not' % (st[1:], i), case)
+                break
+            if i >= len(obs):
+                ctx.diverge(chead + 'implementation raised %s at step %d, model does not' % (err, i), case)
+                break
+            c = st.split(',')
+            h, f, rv = obs[i]
+            mine_rv = '-' if rv is None else '%d:%d' % rv
+            if '!Timeout' in (c[0], c[1]):
+                ctx.count('cut-leaves-the-model')
+                break
+            for name, a, b in (('read_all_values', c[0], h), ('file reader', c[1], f), ('read_value', c[7], mine_rv)):
+                if a != b:
+                    ctx.diverge(chead + 'step %d %s: model %s, implementation %s' % (i, name, short_triples(a, 200), short_triples(b, 200)), case)
+                    break
+            else:
+                continue
+            break
+        ctx.count('continuations-compared-with-model')
+
+
 def file_str(content):
     if content is None:
         return 'absent'
@@ -483,7 +660,8 @@ def fresh_key_for(md, ops):
     return md.mmap_key('pv_fresh', 'pv_fresh', ['n'], [str(len(ops))], 'written after reopen')
 
 
-def check_history(ctx, judge, md, scratch, init, ops, model_reply, label, only_cut=None, verbose=False):
+def check_history(ctx, judge, md, scratch, init, ops, model_reply, label, only_cut=None, verbose=False, pending=None,
+                  cont_override=None):
     """record, compare the trace with the model, then every cut.  Returns the Recorded object (or None)."""
     path = os.path.join(scratch.copydir, 'recording.db')
     rec = record_history(md, path, init, ops)
@@ -545,6 +723,17 @@ def check_history(ctx, judge, md, scratch, init, ops, model_reply, label, only_c
         judge_file(judge, ref, head, case, len(content), reader, completed, in_op)
         judge_collect(judge, head, case, [len(content)], collect)
         judge_reopen(judge, ref, head, case, reopen, completed, in_op, fresh)
+        # a new writer takes the file over at this cut and carries on
+        cont = cont_override if cont_override is not None else continuation_for(ops, k)
+        cobs, cerr = observe_continuation(md, p, os.path.join(scratch.copydir, 'cont-' + fname), init, cont)
+        start_ok = bool(cobs) and not cobs[0][0].startswith('!') and ref.admissible(cobs[0][0], completed, in_op)
+        judge_continuation(judge, ops, head, case, cont, cobs, cerr, start_ok)
+        ctx.count('continuation-ops=%d' % len(cont))
+        if verbose:
+            print('REPLAY  continuation [%s]: %s%s' % (short_ops(cont), ' | '.join(
+                '%s rv=%s' % (short_triples(o[0], 120), o[2]) for o in cobs), '' if cerr is None else ' then ' + cerr))
+        if pending is not None:
+            pending.append((head, case, init, ops, k, cont, cobs, cerr))
         if kind == 'after-truncate-initial-all-zero':
             # pinned explicitly: an all-zero file of full size reads as empty and reopens with used = 8
             if reader != '.' or collect != 'ok' or not same_summary('ok:8:%d:0:.' % len(content), reopen[0]):
@@ -571,10 +760,15 @@ def cuts_line(init, ops):
 def run_histories(ctx, judge, md, scratch, cases, label):
     replies = base.drv(ctx, [cuts_line(init, ops) for init, ops in cases])
     recs = []
+    pending = []
     for i, (init, ops) in enumerate(cases):
-        rec = check_history(ctx, judge, md, scratch, init, ops, None if replies is None else replies[i], label)
+        rec = check_history(ctx, judge, md, scratch, init, ops, None if replies is None else replies[i], label, pending=pending)
         if rec is not None and rec.err is None:
             recs.append((init, ops, rec))
+        if len(pending) >= 1500:
+            compare_continuations(ctx, pending)
+            pending = []
+    compare_continuations(ctx, pending)
     return recs
 
 
@@ -763,6 +957,13 @@ def judge_left_behind(ctx, judge, md, scratch, init, ops, case, head, fname, ver
         judge.fail('C11:reopen-not-a-prefix-state', head + 'after reopening, read_all_values gives %s' % short_triples(r1), case)
     elif r2 != triples_str(parse_triples(r1) + [(fresh, FRESH_V, FRESH_T)]):
         judge.fail('C11:reopen-write-lost', head + 'after reopening and writing a fresh key read_all_values gives %s' % short_triples(r2), case)
+    if length > 0:
+        cont = case.get('cont') or continuation_for(ops[:50], length // 8)
+        cobs, cerr = observe_continuation(md, p, os.path.join(scratch.copydir, 'cont-' + fname), init, cont)
+        start_ok = bool(cobs) and not cobs[0][0].startswith('!') and admissible_any_prefix(ops, cobs[0][0]) is not None
+        judge_continuation(judge, ops, head, case, cont, cobs, cerr, start_ok)
+        if verbose:
+            print('REPLAY  continuation [%s]: %s' % (short_ops(cont), ' | '.join(short_triples(o[0], 120) for o in cobs)))
     return length, reader, j
 
 
@@ -913,8 +1114,11 @@ def replay(ctx, case):
             init, ops = int(c['init']), c['ops']
             print('REPLAY initial size %d, history [%s], cut %s' % (init, short_ops(ops, 40), c.get('cut')))
             rep = base.drv(ctx, [cuts_line(init, ops)])
+            pending = []
             check_history(ctx, judge, md, scratch, init, ops, None if rep is None else rep[0], 'replay',
-                          only_cut=int(c['cut']) if c.get('cut') is not None else None, verbose=True)
+                          only_cut=int(c['cut']) if c.get('cut') is not None else None, verbose=True, pending=pending,
+                          cont_override=c.get('cont'))
+            compare_continuations(ctx, pending)
         elif kind == 'pair':
             sides = []
             for s in (c['a'], c['b']):
